@@ -278,8 +278,33 @@ def _check_split(prog: Program, res: Result):
     offs = [k for k, v in st.env.items() if isinstance(v, Rat) and v.is_const() and v.const_value() == 0]
     if not offs:
         raise AnalysisError(f"{q}: no running offset initialised to 0 before the loop")
-    iv = loop.target.id if isinstance(loop.target, ast.Name) else None
-    st.env[iv] = Rat.atom(iv)
+    # the month index and - when the loop also hands out the element - the month's day count:
+    #   for i in range(1, len(D))            days = D[i]
+    #   for i, d in enumerate(D[a:], start=a)  d = D[i]
+    iv = None
+    if isinstance(loop.target, ast.Name):
+        iv = loop.target.id
+        st.env[iv] = Rat.atom(iv)
+    elif isinstance(loop.target, ast.Tuple) and len(loop.target.elts) == 2 and all(isinstance(e_, ast.Name) for e_ in loop.target.elts) \
+            and isinstance(loop.iter, ast.Call) and attr_chain(loop.iter.func) == "enumerate" and loop.iter.args:
+        iv, ev_ = loop.target.elts[0].id, loop.target.elts[1].id
+        seq = loop.iter.args[0]
+        start = next((k_.value for k_ in loop.iter.keywords if k_.arg == "start"), loop.iter.args[1] if len(loop.iter.args) > 1 else ast.Constant(value=0))
+        lo_ = ast.Constant(value=0)
+        if isinstance(seq, ast.Subscript) and isinstance(seq.slice, ast.Slice) and seq.slice.upper is None and seq.slice.step is None:
+            lo_ = seq.slice.lower or ast.Constant(value=0)
+            seq = seq.value
+        ch = attr_chain(seq)
+        if ch is None:
+            raise AnalysisError(f"{q}: month loop iterates something that is not a plain sequence")
+        st.env[iv] = Rat.atom(iv)
+        shift = eng.eval(lo_, st) - eng.eval(start, st)
+        idx_ = Rat.atom(iv) + shift if isinstance(shift, Rat) else None
+        if idx_ is None:
+            raise AnalysisError(f"{q}: enumerate offset not understood")
+        st.env[ev_] = Rat.atom(f"{ch}[{idx_.key()}]")
+    if iv is None:
+        raise AnalysisError(f"{q}: month loop target not understood")
     for o in offs:
         st.env[o] = Rat.atom(o)
     slices = []  # (array name, lo, hi)
